@@ -1,0 +1,21 @@
+//go:build !verif
+
+package container
+
+import (
+	"os/exec"
+
+	"github.com/criyle/go-sandbox/pkg/unixsocket"
+)
+
+// verification hooks: no-ops unless built with -tags verif
+
+func verifCmd(*exec.Cmd)                                   {}
+func verifBegin()                                          {}
+func verifEndCmd(string, *cmd, error)                      {}
+func verifEndReply(string, *reply, unixsocket.Msg, error)  {}
+func verifRecvCmd(string, *cmd, error)                     {}
+func verifRecvReply(string, *reply, unixsocket.Msg, error) {}
+func verifEvent(string, string, ...any)                    {}
+func verifPoint(string)                                    {}
+func verifCmdEvent(string, string, *cmd)                   {}
